@@ -1,10 +1,15 @@
 -- Root of the RF library: imports every property file (kept current by hand).
+import RF.Props.C04
+import RF.Props.C05
 import RF.Props.C06
 import RF.Props.C07
+import RF.Props.C08
 import RF.Props.C09
 import RF.Props.C11
 import RF.Props.C12
 import RF.Props.C13
+import RF.Props.C15
+import RF.Props.C16shape
 import RF.Props.C17
 import RF.Props.C18
 import RF.Props.C19
